@@ -562,7 +562,7 @@ def _sig_f30(sub, desc, bucket, message):
 SUBCHECKS = [
     # no required_classes: classes are only recorded for passing cases, so a defect that breaks every case of a
     # class (e.g. every rechunked save) would be masked as a generator problem
-    SubCheck("roundtrip", run_roundtrip, strategy=st_roundtrip, quick=5000, thorough=200000),
+    SubCheck("roundtrip", run_roundtrip, strategy=st_roundtrip, quick=5000, thorough=120000),
     SubCheck("grid", run_roundtrip, enumerate=enum_grid),
-    SubCheck("load_rechunk", run_load_rechunk, strategy=st_load_rechunk, quick=1500, thorough=30000),
+    SubCheck("load_rechunk", run_load_rechunk, strategy=st_load_rechunk, quick=1500, thorough=24000),
 ]
